@@ -150,5 +150,7 @@ class WeightedSum(Component):
 
             self._out_data = result
             self._last_update = time
+            return self._out_data
 
-        return self._out_data
+        # repeated request for the same time: hand out a copy, outputs refuse shared memory
+        return self._out_data.copy()
